@@ -121,7 +121,12 @@ META = {
                  'FlatMie/LeeMie, TaurexChemistry, ConstantGas, '
                  'Isothermal/Guillot, ArraySpectrum, FluxBinner',
                  'quantile_corner'],
-        'stub': ['mpi4py -> SimWorld (sim/mpi_world.py)',
+        'stub': ['mpi4py -> in-process module whose COMM_WORLD is SimWorld '
+                 '(sim/mpi_world.py): the real wrappers of taurex/mpi.py '
+                 '(allgather, allreduce, broadcast incl. the ndarray Bcast '
+                 'branch, barrier, only_master_rank) run on top of it; only '
+                 'get_rank/nprocs are replaced directly (lru_cached per '
+                 'process, ranks are threads)',
                  'sampler -> Optimizer subclass returning the generated '
                  'posterior from get_samples/get_weights',
                  'opacity data -> in-memory InterpolatingOpacity/CIA tables'],
